@@ -245,8 +245,14 @@ def check(ctx):
         ln = next(nd for nd in cfg.nodes.values() if nd.kind == "test" and nd.extra is loop)
         gn = next(nd for nd in cfg.nodes.values() if any(x is gets[0] for x in node_calls(nd)))
         mv = gn.ast.targets[0].id if isinstance(gn.ast, ast.Assign) and isinstance(gn.ast.targets[0], ast.Name) else None
+        # a local bound once per iteration to `<msg>.dump()` stands for the serialised message
+        _ldefs = {}
+        for s_ in ast.walk(loop):
+            if isinstance(s_, ast.Assign) and len(s_.targets) == 1 and isinstance(s_.targets[0], ast.Name):
+                _ldefs.setdefault(s_.targets[0].id, []).append(ast.unparse(s_.value))
+        _is_dump = lambda e: ast.unparse(e) == f"{mv}.dump()" or (isinstance(e, ast.Name) and _ldefs.get(e.id) == [f"{mv}.dump()"])
         dumps = [nd for nd in cfg.nodes.values() if nd.kind == "stmt" and isinstance(nd.ast, ast.AugAssign)
-                 and ast.unparse(nd.ast.value) == f"{mv}.dump()"]
+                 and _is_dump(nd.ast.value)]
         svar = ast.unparse(dumps[0].ast.target) if dumps else None
         exits = {ln.id} | {nd.id for nd in cfg.nodes.values() if nd.kind == "stmt" and isinstance(nd.ast, ast.Break)}
         once = len(dumps) == 1 and all(must_pass(cfg, lambda nd: nd.id == dumps[0].id, start=t, targets={ln.id})
@@ -258,9 +264,23 @@ def check(ctx):
         from ..paths import enum_paths
         multi = False
         for pth in enum_paths(loop.body, loops="skip"):
-            nd_ = [st_ for st_ in pth.stmts() if isinstance(st_, ast.AugAssign) and ast.unparse(st_.value) == f"{mv}.dump()"]
+            nd_ = [st_ for st_ in pth.stmts() if isinstance(st_, ast.AugAssign) and _is_dump(st_.value)]
             if len(nd_) > 1 or (len(nd_) == 0 and pth.term == "fall"):
                 multi = True
+        # a message that was appended to the batch must not ALSO go back on the queue (it would be written now and again later)
+        both = False
+        for pth in enum_paths(loop.body, loops="skip"):
+            sts_ = list(pth.stmts())
+            ser_ = any(isinstance(st_, ast.AugAssign) and _is_dump(st_.value) for st_ in sts_)
+            req_ = any(isinstance(st_, ast.Expr) and isinstance(st_.value, ast.Call) and call_name(st_.value) in
+                       ("self._send_messages.put", "self._send_messages.put_nowait") for st_ in sts_)
+            if ser_ and req_:
+                both = True
+        ctx.decide(not both, "R-MUSTPASS/serialise-once", snd.qual, snd.where(gn.ast),
+                   "no iteration both serialises its message into the batch and puts it back on the queue",
+                   "an iteration of the dequeue loop appends the message's encoding to the batch and then puts the same message back on "
+                   "the send queue: it is written with this batch and again with a later one (duplicated on the wire)",
+                   key="serialised_and_requeued")
         ctx.decide(not multi and bool(dumps), "R-MUSTPASS/serialise-once", snd.qual, snd.where(gn.ast),
                    "an iteration that completes serialises its message exactly once",
                    "an iteration of the dequeue loop serialises its message more than once or completes without serialising it: the "
